@@ -1456,7 +1456,9 @@ func (d *Data) storeAndUpdate(ctx *datastore.VersionedCtx, keyStr string, newDat
 			mdb.fields[field]++
 			if strings.HasSuffix(field, "_time") {
 				rootField := field[:len(field)-5]
-				mdb.fieldTimes[rootField] = newData[field].(string)
+				if timestamp, isString := newData[field].(string); isString {
+					mdb.fieldTimes[rootField] = timestamp
+				}
 			}
 		}
 		mdb.addBodyID(bodyid)
